@@ -18,7 +18,7 @@ one() {
   det=$(echo "$res" | grep '^VIOLATION' | sed 's/VIOLATION property=\([A-Z0-9]*\).*/\1/' | sort -u | tr '\n' ' ')
   own=${seed%%-*}
   case " $det " in *" $own "*) o=yes;; *) o=NO;; esac
-  first=$(echo "$res" | grep "^FAILED $own\." | head -1 | sed "s#$scratch/repo/##g" | cut -c1-220)
+  first=$(echo "$res" | grep "^FAILED $own\." | head -1 | sed "s#$scratch/repo/##g" | cut -c1-220 | iconv -f utf-8 -t utf-8 -c)
   echo -e "$seed\t$o\t$det\t$first"
   rm -rf $scratch
 }
